@@ -130,6 +130,9 @@ func runTerminal(addr string, t *termStream, cuts []int, pause time.Duration) (o
 
 func (ck *checker) partTerminal() {
 	ctx := ck.ctx
+	slowDone := make(chan struct{})
+	go func() { defer close(slowDone); ck.slowReaderProbe() }()
+	defer func() { <-slowDone }()
 	s := ck.startServer()
 	defer func() { s.Kill9() }()
 	restart := func() {
@@ -279,4 +282,67 @@ func (ck *checker) optionsProbe(addr string) {
 		ck.report("seg-terminal:http-options", fmt.Sprintf("one OPTIONS request is answered %d time(s) when nothing follows and %d time(s) when three one-byte segments follow it: %q", n0, n3, clip(string(buf))),
 			map[string]any{"request": req, "followed_by": "X X X (one byte per segment)", "received": string(buf)})
 	}
+}
+
+// slowReaderProbe: a pipeline whose replies exceed every socket buffer is sent
+// while the client does not read for several seconds; afterwards every reply
+// must be there, whole and in order (one per command).
+func (ck *checker) slowReaderProbe() {
+	ctx := ck.ctx
+	s := ck.startServer()
+	defer s.Kill9()
+	c, err := wire.Dial(s.Addr(), 60*time.Second)
+	if err != nil {
+		ctx.Inconclusive("slow reader probe: " + err.Error())
+		return
+	}
+	defer c.Close()
+	val := bytes.Repeat([]byte("0123456789abcdef"), 1024) // 16 KiB
+	if err := c.Write(wire.EncodeRESP("SET", "slowk", "big", "STRING", string(val))); err != nil {
+		ctx.Inconclusive("slow reader probe: " + err.Error())
+		return
+	}
+	if f, err := c.Next(wire.RESP, ioTimeout); err != nil || string(f) != "+OK\r\n" {
+		ctx.Inconclusive(fmt.Sprintf("slow reader probe: SET: %v %q", err, f))
+		return
+	}
+	const n = 3000
+	var pipe []byte
+	for i := 0; i < n; i++ {
+		pipe = append(pipe, wire.EncodeRESP("GET", "slowk", "big")...)
+		pipe = append(pipe, wire.EncodeRESP("ECHO", fmt.Sprintf("marker-%d", i))...)
+	}
+	werr := make(chan error, 1)
+	go func() { werr <- c.Write(pipe) }()
+	time.Sleep(5 * time.Second) // the server's writes stall on the full socket meanwhile
+	wantGet := fmt.Sprintf("$%d\r\n%s\r\n", len(val), val)
+	for i := 0; i < 2*n; i++ {
+		f, err := c.Next(wire.RESP, 30*time.Second)
+		want := wantGet
+		if i%2 == 1 {
+			m := fmt.Sprintf("marker-%d", i/2)
+			want = fmt.Sprintf("$%d\r\n%s\r\n", len(m), m)
+		}
+		if err != nil || string(f) != want {
+			if !s.Alive() {
+				_, site := s.Crashed()
+				ck.report(crashKey(site), "server died during the slow-reader pipeline: "+site, map[string]any{"stderr": s.StderrTail(3000)})
+				return
+			}
+			if err != nil && wire.IsTimeout(err) && i == 0 {
+				ctx.Inconclusive("slow reader probe: no reply within 30 s")
+				return
+			}
+			ck.report("seg-slow-reader", fmt.Sprintf("pipeline of %d x (GET 16 KiB value, ECHO marker) read after a 5 s pause of the client: reply %d of %d is %q (error %v), expected %q", n, i, 2*n, clip(string(f)), err, clip(want)),
+				map[string]any{"commands": fmt.Sprintf("SET slowk big STRING <16 KiB>; %d x (GET slowk big; ECHO marker-i) in one write; client reads after 5 s", n), "reply_index": i})
+			return
+		}
+	}
+	if err := <-werr; err != nil {
+		ctx.Inconclusive("slow reader probe: write: " + err.Error())
+		return
+	}
+	ctx.Eval(1)
+	ctx.Count("slow_reader_replies_checked", 2*n)
+	ctx.Distinct("term:slow-reader")
 }
